@@ -154,12 +154,14 @@ def run(ctx):
     run_profile(ctx, res, "multi-repeat", ctx.n(60, 600), 3, pending)
     run_values_profile(ctx, res, ctx.n(120, 1500), pending)
     compare_model(ctx, res, pending)
+    from harness import multidoc
+    multidoc.run_family(res, "C03")
     if pending:
         res.sample(dict(xsd=pending[0][3]["xsd"][:600], document=pending[0][3]["document"][:400]))
     res.rule = ("schemas from the section-5 generator (sequence / choice / all, nested complex types to depth 2, occurrence bounds incl. unbounded, "
                 "attributes required/optional, simpleContent, nillable, repeated choice and repeated sequence, qualified/unqualified forms), 3 "
                 "libxml2-valid documents each (occurrence counts min / min+1 / max, every choice branch, shuffled xsd:all, optional attribute subsets, "
-                "xsi:nil, default-namespace or prefixed root); plus sequences holding two or three repeating particles. distinct = distinct (schema, document); non-trivial = the root has children")
+                "xsi:nil, default-namespace or prefixed root); plus sequences holding two or three repeating particles; hand-written families outside the grammar (harness/multidoc.py): schemas split over xsd:include with every combination of form defaults, derivation through complexContent/restriction with xsi:type. distinct = distinct (schema, document); non-trivial = the root has children")
     return res
 
 
@@ -170,6 +172,9 @@ def search(ctx):
 def replay(ctx, payload):
     c = payload.get("case", payload)
     import random
+    if c.get("kind") == "multidoc":
+        from harness import multidoc
+        return multidoc.replay("C03", c)
     if c["profile"] == "values":
         case = enginea.VCase(c["seed"])
         doc = etree.fromstring(c["document"].encode())
